@@ -37,7 +37,8 @@ Dom == [
   kid    |-> {"absent", "known", "unknown", "num"},
   hextra |-> {"none", "str", "num"},             \* an unregistered header parameter
   sig    |-> {"static", "jwks", "other", "flip", "splice", "empty", "hmacpub"},
-  ver    |-> {"absent", "1", "2", "0", "str", "null", "float", "neg"},
+  ver    |-> {"absent", "1", "2", "0", "str", "str2", "null", "bool", "float", "neg", "arr", "obj"},
+             \* absent | 1 | 2 | 0 | "1" | "2" | null | true | 1.5 | -1 | [1] | {}
   pssid  |-> {"v0", "v1", "absent", "badstr", "num", "null", "v1ver1", "v1len16"},
   exp    |-> {"fut", "soon", "lee", "gone", "old", "absent", "str", "null", "float", "neg"},
   nbf    |-> {"absent", "past", "now", "lee", "notyet", "far", "str", "null", "float"},
@@ -70,10 +71,12 @@ Designated(t) ==
 
 SigValid(t) == t.sig = Designated(t)
 
+\* a PRESENT `ver` that is not a supported version number is refused whatever the rest of the token looks
+\* like (in particular a v0-shaped token does not become acceptable by carrying "ver":"2", null, true, ...)
 Version(t) == CASE t.ver = "absent" -> "v0"
                 [] t.ver = "1" -> "v1"
-                [] t.ver = "2" -> "unknown"
-                [] OTHER -> "odd"
+                [] t.ver \in Dom.ver \ {"absent", "1"} -> "unknown"
+                [] OTHER -> "odd"        \* outside the abstract domain (the extractor's "unk", e.g. 1.0)
 
 Required(v) == IF v = "v0" THEN {"pssid", "exp", "jti"}
                ELSE {"ver", "iss", "aud", "exp", "nbf", "iat", "jti", "pssid"}
